@@ -46,13 +46,22 @@ func (h *Histogram) MarshalJSON() ([]byte, error) {
 		if i > 0 {
 			buf.WriteString(", ")
 		}
-		if _, err := fmt.Fprintf(&buf, "\"%d\": %d", h.Buckets[i], h.Counts[i]); err != nil {
+		if _, err := fmt.Fprintf(&buf, "\"%d\": %d", h.Buckets[i], h.count(i)); err != nil {
 			return nil, err
 		}
 	}
 	buf.WriteString("}")
 
 	return buf.Bytes(), nil
+}
+
+// count returns the count of the ith bucket, which is zero for all buckets
+// as long as no Result has been added.
+func (h *Histogram) count(i int) uint64 {
+	if i < len(h.Counts) {
+		return h.Counts[i]
+	}
+	return 0
 }
 
 // Nth returns the nth bucket represented as a string.
